@@ -230,6 +230,49 @@ let () = register "stspec" (fun f ->
     Printf.sprintf "wf=%s frame=%s view=%s" (b01 (wf_station s)) (hex_of_bytes (station_frame s extra)) (st_view s)
   | _ -> failwith "stspec: bad case")
 
+(* ---- sanitise (C19), queue (C18) ---- *)
+let () = register "sanitise" (fun f ->
+  match f with
+  | [_; hx] -> hex_of_bytes (sanitise (bytes_of_hex hx))
+  | _ -> failwith "sanitise: bad case")
+
+(* queue <capacity> <ops>: model and, beside it, the specification "last min(N, added)" *)
+let () = register "queue" (fun f ->
+  match f with
+  | [_; cap; ops] ->
+    let n = int_of_string cap in
+    let q = ref (new_queue (nat_of_int n)) in
+    let added = ref [] in   (* newest first *)
+    let next = ref 0 in
+    let maxitems = ref 0 in
+    let parts = ref [] in
+    let add () =
+      incr next; q := qadd !q (n_of_int !next); added := !next :: !added;
+      let l = List.length (!q).q_items in if l > !maxitems then maxitems := l in
+    let i = ref 0 in
+    let len = String.length ops in
+    while !i < len do
+      (match ops.[!i] with
+       | 'a' -> add ()
+       | 'A' ->
+         let j = ref (!i + 1) in
+         while !j < len && ops.[!j] >= '0' && ops.[!j] <= '9' do incr j done;
+         let k = int_of_string (String.sub ops (!i + 1) (!j - !i - 1)) in
+         for _ = 1 to k do add () done;
+         i := !j - 1
+       | 's' ->
+         let snap = List.map int_of_n (snapshot !q) in
+         let str l = if l = [] then "-" else String.concat "." (List.map string_of_int l) in
+         (* specification: the last min(capacity, added) additions, oldest first *)
+         let rec take k l = if k = 0 then [] else match l with [] -> [] | x :: r -> x :: take (k - 1) r in
+         let spec = List.rev (take n !added) in
+         parts := ("s:" ^ str snap ^ (if snap = spec then "" else "!spec=" ^ str spec)) :: !parts
+       | _ -> ());
+      incr i
+    done;
+    String.concat " " (List.rev (Printf.sprintf "max=%d" !maxitems :: !parts))
+  | _ -> failwith "queue: bad case")
+
 let () =
   if Array.length Sys.argv < 2 then (prerr_endline "usage: model <property> < cases"; exit 2);
   let r = try Hashtbl.find runners Sys.argv.(1) with Not_found -> (prerr_endline "model: unknown property"; exit 2) in
